@@ -47,7 +47,7 @@ def run(rep: Report, tier: str, only=None) -> None:
 		'K2: CPython int/int true division is the correctly rounded quotient; binary128 intermediate gives the same rounding (2p+2)',
 		'string kernels: literals without prefix and without escapes',
 	]
-	rep.outside = ['float o float chains beyond the single operations of K2 (CrossHair models floats as reals)', 'enum member references and the text emitted by py2cpp.on_relay (needs the pipeline)', 'string escapes, string prefixes']
+	rep.outside = ['float o float chains beyond the single operations of K2 (CrossHair models floats as reals)', 'the text emitted by py2cpp.on_relay for enum values', 'string escapes, string prefixes']
 	rep.extra['trusted_base'] = ['CrossHair 0.0.110', 'z3 5.1.0', 'cvc5 1.4.0 (fp-exp)', 'smt/specialise.py abstract interpreter of the evaluator source', 'harness reference models']
 	k2_thread = None
 	if not only or 'K2' in only:
@@ -58,6 +58,8 @@ def run(rep: Report, tier: str, only=None) -> None:
 	rep.run_jobs(jobs)
 	if k2_thread:
 		k2_thread.join()
+	if not only or 'K6' in only:
+		rep.run_closed('K6.enum_composition', 'harness.c17_enum', 'enum_values_closed', {}, '25 filled four-enum modules (member references, cross-enum references, two nested enums sharing a short name) through the real pipeline: LiteralEvaluator.exec of 11 `.value` references each vs CPython (closed)')
 	rep.check_recorded()
 
 
